@@ -29,7 +29,7 @@ Obligation names (prefix = function; what a VIOLATION reports):
       data_page.callsite.{page_cursor_header_metadata, skip_nulls_only_for_selfmade_chunk_without_nulls, selfmade_passed_on}
       data_page.{rows_are_next_window, defined_positions_get_values_in_order, null_positions_get_null,
                  dictionary_indices_dereferenced_through_chunk_dictionary, plain_page_not_routed_through_dictionary}
-      categorical.codes_only_from_dictionary_encoded_pages
+      categorical.codes_only_from_dictionary_encoded_pages   plain_page_in_categorical_read_is_refused
       data_page_v2.callsite.{page_cursor_header_metadata, num_is_rows_so_far, output_is_whole_column, dictionary_is_chunk_dictionary,
                              flags_passed_on}   data_page_v2.rows_written_only_by_the_v2_reader
       exit.all_values_placed_no_overrun   exit.every_output_row_written   supported_chunk_is_not_refused@L<line>
@@ -57,7 +57,9 @@ Obligation names (prefix = function; what a VIOLATION reports):
 Findings.  Twelve defects of /repo were re-derived / found here (contracts/findings.jsonl, ids C03-P-*, each replayed natively by
 tools/c03pages_native.py); three of them are repaired in /repo (fixed-C03-v1-dict-boolean-width-byte efe7e45, fixed-C03-v1-rle-boolean-
 length-prefix c8ef5ea, fixed-C03-v1-bit-packed-levels f1984b1: their obligations are plain PROVED obligations again, reverting a fix is a
-canary).  Every run carries the union of the INPUT REGIONS of the open findings; an obligation that is REFUTED is posed a second time with
+canary; likewise fixed-C03-categorical-read-of-fallback-chunk af3a4f3 for v1 pages - the v2 reader still copies a PLAIN page into the
+codes, and read_col now refuses such a page before the call: fixed-C03-v2-categorical-read-of-plain-page c3e23bf = call-site precondition
+data_page_v2.callsite.categorical_read_only_for_dictionary_pages).  Every run carries the union of the INPUT REGIONS of the open findings; an obligation that is REFUTED is posed a second time with
 the region excluded under `<name>[outside the regions of the recorded findings]` - that one is PROVED on the unchanged tree, so every
 counter-model lies inside a recorded finding, and a change that breaks the same obligation elsewhere is a VIOLATION of the companion.
 C13 (part "read_col_mask", props/_pagemask.py): run `read_col[values, row_filter mask]` - the caller's boolean row mask of the row group:
@@ -2148,6 +2150,9 @@ def run_read_col(ctx, funcs, timeout, mode, any_sizes=False, mask=False):
                    z3.Implies(in_set(pg.enc2, DICT_ENCS), z3.And(z3.Not(isn), d.h.page == 0, z3.BoolVal(d.h.converted))
                               if isinstance(d, Custom) and isinstance(d.h, DictVal) else z3.BoolVal(False)), node,
                    "a dictionary-encoded v2 page is dereferenced through the chunk's (converted) dictionary page")
+        eng.oblige(p, pre + "categorical_read_only_for_dictionary_pages", "post", z3.Implies(z3.BoolVal(cat), in_set(pg.enc2, DICT_ENCS)), node,
+                   "precondition of read_data_page_v2 under use_cat (it treats use_cat as 'decode into place'): the page is dictionary-"
+                   "encoded - a PLAIN / RLE / DELTA v2 page of a categorical read is refused before the call")
         eng.oblige(p, pre + "flags_passed_on", "post",
                    z3.And(eng.truth(a["use_cat"], p) == z3.BoolVal(cat), eng.truth(a.get("selfmade", PyB(False)), p) == C.selfmade,
                           z3.BoolVal(isinstance(a.get("row_filter", NONE), NoneV) if not mask else
@@ -2260,11 +2265,9 @@ def run_read_col(ctx, funcs, timeout, mode, any_sizes=False, mask=False):
             if mask:
                 lo_, hi_ = C.VS(k), C.VS(k + 1)
                 b2.pc += pc_facts(lo_, hi_, M.L) + pc_facts(hi_, M.L, M.L) + pc_facts(z3.IntVal(0), lo_, M.L) + pc_facts(z3.IntVal(0), hi_, M.L)
-            # input regions of the findings recorded for read_col: v2 page with an empty values section (the cut's contract: cursor
-            # at the end of the chunk); categorical read of a chunk with a page that is not dictionary-encoded
-            b2.ghost["region"] = z3.Or(z3.And(pg.type == PT["DATA_PAGE_V2"], pg.cps - pg.rl - pg.dl < 1),
-                                       z3.And(z3.BoolVal(cat), z3.Or(z3.And(pg.type == PT["DATA_PAGE"], z3.Not(in_set(pg.enc, DICT_ENCS))),
-                                                                     z3.And(pg.type == PT["DATA_PAGE_V2"], z3.Not(in_set(pg.enc2, DICT_ENCS))))))
+            # input region of the finding recorded for read_col: v2 page with an empty values section (the cut's contract: cursor at the
+            # end of the chunk).  (A categorical read of a chunk with a page that is not dictionary-encoded is refused since af3a4f3.)
+            b2.ghost["region"] = z3.And(pg.type == PT["DATA_PAGE_V2"], pg.cps - pg.rl - pg.dl < 1)
             if mask:        # + finding: any DATA_PAGE_V2 page under a row mask (the v2 reader is not told where the page lies in the mask)
                 b2.ghost["region"] = z3.Or(b2.ghost["region"], pg.type == PT["DATA_PAGE_V2"])
             if not eng.feasible(b2):
@@ -2364,6 +2367,10 @@ def run_read_col(ctx, funcs, timeout, mode, any_sizes=False, mask=False):
                            z3.Implies(z3.Not(is_dict), z3.BoolVal(direct)), st,
                            "a page that is not dictionary-encoded (dictionary fallback) stores convert(values of this page), not dic[...]")
             else:
+                eng.oblige(r, fn + ".plain_page_in_categorical_read_is_refused", "post", is_dict, st,
+                           "categorical read (ordinary category definition, not the multi-index one): a v1 data page that is not "
+                           "dictionary-encoded never gets through the loop body - the read raises (dictionary fallback cannot be "
+                           "expressed as codes of the chunk's dictionary)")
                 eng.oblige(r, fn + ".categorical.codes_only_from_dictionary_encoded_pages", "post",
                            z3.And(is_dict, z3.BoolVal(page_vals(sh))), st,
                            "categorical read: what is stored as category codes are the dictionary indices of a dictionary-encoded page; "
@@ -2505,7 +2512,8 @@ def run_read_col(ctx, funcs, timeout, mode, any_sizes=False, mask=False):
             p0 = C.page(z3.IntVal(0))
             unsupported = z3.Or(pg.type == PT["INDEX_PAGE"],
                                 z3.And(z3.BoolVal(cat), z3.Or(z3.Not(z3.And(C.K >= 1, p0.type == PT["DICTIONARY_PAGE"])),
-                                                              z3.And(pg.type == PT["DATA_PAGE"], z3.Not(in_set(pg.enc, DICT_ENCS))))))
+                                                              z3.And(pg.type == PT["DATA_PAGE"], z3.Not(in_set(pg.enc, DICT_ENCS))),
+                                                              z3.And(pg.type == PT["DATA_PAGE_V2"], z3.Not(in_set(pg.enc2, DICT_ENCS))))))
             why = events(q, "numpy_raise")
             eng.pose(q, f"{fn}.supported_chunk_is_not_refused@L{raise_line(q)}", unsupported,
                      "a raise inside the page loop happens only for an INDEX page or - categorical read - for a chunk that is not "
@@ -2572,6 +2580,9 @@ def run_data_page_v2(ctx, funcs, timeout):
         z3.Implies(in_set(E, DICT_ENCS), z3.Not(dic_none)), dic.n >= 0,
         z3.Implies(z3.And(NN > 0, z3.Not(assign.masked), z3.Not(use_cat)), z3.Not(in_set(assign.kind, [ord(c) for c in "iub"]))),
         z3.Implies(use_cat, z3.And(in_set(assign.kind, [ord("i"), ord("u")]), z3.Not(assign.masked))),
+        # call-site precondition (the only caller is read_col; proved there: data_page_v2.callsite.categorical_read_only_for_dictionary_pages,
+        # c3e23bf): under use_cat the page is dictionary-encoded.  read_data_page_v2 itself does not check it.
+        z3.Implies(use_cat, in_set(E, DICT_ENCS)),
         # a page that holds a non-null value has a non-empty values section (RLE booleans: length prefix + runs)
         z3.Implies(NV - NN >= 1, z3.And(size >= 1, page.ups - DL - RL >= 1)),
         z3.Implies(z3.And(NV - NN >= 1, E == ENC["RLE"]), page.ups - DL - RL >= 5)]
@@ -2582,7 +2593,6 @@ def run_data_page_v2(ctx, funcs, timeout):
          "scratch_with_nulls": z3.And(NN > 0, z3.Or(is_rle_, z3.And(is_dict_, use_cat))),
          "delta_nulls": z3.And(is_delta_, NN > 0),
          "delta_64bit": z3.And(is_delta_, z3.Or(S.ptype == TY["INT64"], assign.item != 4)),
-         "categorical_plain": z3.And(use_cat, z3.Not(is_dict_)),
          "categorical_dict_foreign": z3.And(is_dict_, use_cat)}
     eng.default_region = z3.Or(*R.values())
     f.set(p, entry)
@@ -2616,8 +2626,8 @@ def run_data_page_v2(ctx, funcs, timeout):
         eng.pose(q, fn + ".unsupported_encoding_raises", supported,
                  "a v2 page whose value encoding is outside PLAIN / dictionary / RLE / DELTA_BINARY_PACKED reaches a raise")
         eng.pose(q, fn + ".rows.categorical_codes_only_from_dictionary_encoded_pages", z3.Implies(use_cat, is_dict),
-                 "categorical read: only the indices of a dictionary-encoded page are stored as category codes; a PLAIN / RLE / DELTA "
-                 "page (dictionary fallback) is refused or re-coded")
+                 "categorical read: only the indices of a dictionary-encoded page are stored as category codes [holds by the call-site "
+                 "precondition use_cat => dictionary-encoded, which read_col establishes before the call; the function does not check it]")
         r = q.ctl[1]
         eng.pose(q, fn + ".returns_num_values", eng.as_int(r, q) == NV if isinstance(r, (PyI, Opt)) else F,
                  "the caller advances its row offset by what is returned: the page's num_values")
